@@ -682,3 +682,12 @@ for _p in ("C01", "C02", "C04"):
     PROPS[_p]["assumptions"] = list(PROPS[_p].get("assumptions", [])) + [
         "reader/writer micro-step model: a segment between two suspension points is atomic; async-lock's RwLock grants a read lock only "
         "while no writer holds it (trusted)"]
+READERS_SUITE = {"kind": "lines", "nvh_suite": "readers", "driver_suite": "readers", "op_prefixes": ["bi "],
+                 "cases": {"quick": 600, "thorough": 30000}}
+for _p in ("C01", "C02", "C04"):
+    PROPS[_p]["suites"]["readers"] = dict(READERS_SUITE, oracle_tags=[_p])
+    PROPS[_p]["level_text"] += (
+        " The `readers` suite ties that model to the server: a BROADCAST or MEMBERS request is issued while a JOIN or LEAVE of the same "
+        "channel is parked in its modulator notification; the harness observes that the reader is not answered before the writer finishes "
+        "(including across the hand-over announcement) and which member list it then works with (recipients of the broadcast plus the "
+        "sender, or the MEMBERS reply), after acknowledged and refused notifications; the Lean driver replays the same schedule.")
